@@ -136,7 +136,8 @@ def _observe(gtext, opts, inputs, dump=False):
     obs = {"gerr": None}
     detail = {}
     kw = dict(tables=LALR if opts["tables"] else SLR, prefer_shifts=opts["ps"],
-              prefer_shifts_over_empty=opts["pse"], lexical_disambiguation=opts["lexdis"])
+              prefer_shifts_over_empty=opts["pse"], lexical_disambiguation=opts["lexdis"],
+              consume_input=opts.get("consume", True))
     # LALR construction diverges on some grammars (KF-C05): the state budget hook makes that outcome
     # deterministic (a wall-clock limit would not be)
     try:
@@ -544,10 +545,19 @@ def gen_jobs(ctx):
             r = gen(rng, i)
             if r is not None:
                 cases.append((fam, r[0], r[1], r[2]))
+    # consume_input off: one parse accepts several sentence prefixes (several accepted heads whose
+    # root links are folded into one forest root): the order of the forest's trees must not depend
+    # on the process either
+    for n, t, alpha in [("pre_list", "S: S 'a' | 'a';", "a"), ("pre_a_aa", "S: 'a' | 'a' 'a' | S S;", "a"),
+                        ("pre_ab", "S: A | S A; A: 'a' | 'a' 'b' | 'b';", "ab"),
+                        ("pre_null", "S: A S | EMPTY; A: 'a' | 'a' 'a';", "a")]:
+        cases.append(("prefix", n, t, list(gramgen.all_strings(list(alpha), 5 if len(alpha) == 1 else 4))))
     jobs = []
     for k, (fam, name, text, ins) in enumerate(cases):
         opts = {"tables": 0 if rng.random() < 0.3 else 1, "ps": rng.random() < 0.4,
                 "pse": rng.random() < 0.4, "lexdis": rng.random() < 0.8}
+        if fam == "prefix" or (fam in ("small", "curated", "unary", "nullable2") and rng.random() < 0.25):
+            opts["consume"] = False
         jobs.append({"fam": fam, "name": name, "gtext": text, "opts": opts, "inputs": ins})
     return jobs
 
@@ -782,9 +792,18 @@ def run(ctx):
     nx, xok, xlog = common.coq_crosscheck("C16", mcases, outs, ctx.rng, sample=16 if quick else 60)
     if not xok:
         ctx.violation("extraction cross-check failed", {"log": xlog}, no_input=True)
+    # ==== table_build_correspondence under other hash seeds ================================
+    # the Gallina model of create_table is a function of the ORDERED grammar
+    # (C16_table_build_is_a_function); the impl, run in processes with other PYTHONHASHSEEDs, must
+    # still build exactly the model's table (harness/lib/tabcorr.py)
+    from lib import tabcorr
+    tab_seeds = tabcorr.run_seeds(ctx, seeds=tuple(rng.sample(range(1, 4294967295), 2 if quick else 6)),
+                                  n_jobs=120 if quick else 1200)
+    # ==== end ================================================================================
     return {
         "evaluations": evaluations,
         "distinct_nontrivial": len(distinct),
+        "table_build_correspondence_hash_seeds": tab_seeds,
         "rule": "curated/classic grammars, malformed grammar texts, seeded random small and unary-nullable grammars, and "
                 "C16 families with wide lookahead sets and hash-reordered terminal names (operator tables with "
                 "priorities/associativity/nops, statement lists with nullable tails, random grammars over 5-12 terminals, "
